@@ -131,7 +131,17 @@ func loadKnown(verif string) ([]KnownFinding, error) {
 // Finish matches known findings, writes evidence and replay files, prints the verdict lines and returns the exit code.
 func (r *Run) Finish() int {
 	if r.Dry {
+		known, _ := loadKnown(r.VerifDir)
 		for _, o := range r.Obls {
+			isKnown := false
+			for _, k := range known {
+				if k.Status == "known" && k.Property == r.Prop && k.Rule == o.Rule && k.Construct == o.Construct {
+					isKnown = true
+				}
+			}
+			if isKnown {
+				continue
+			}
 			if o.Verdict == "violated" || o.Verdict == "undecided" {
 				fmt.Printf("MUTANT-FIRES\t%s\t%s\t%s\n", o.Rule, o.Construct, o.Pos)
 			}
